@@ -130,13 +130,14 @@ class PostOffice:
                 # Syntax sugar, just a single-output producer
                 topic = topic[0]
             else:
-                # Multi-output producer, recurse
-                for sub_topic in topic:
-                    # if sub_topic is already registered as loader,
-                    # we can not handle it as _multi_output_topics
-                    if sub_topic not in registered:
-                        self._multi_output_topics[sub_topic] = topic
-                        self.register_producer(iterator, sub_topic)
+                # Multi-output producer, recurse.
+                # If a sub_topic is already registered as loader, we can not
+                # handle it as _multi_output_topics: this producer neither
+                # feeds nor exhausts it.
+                own_topics = tuple(t for t in topic if t not in registered)
+                for sub_topic in own_topics:
+                    self._multi_output_topics[sub_topic] = own_topics
+                    self.register_producer(iterator, sub_topic)
                 return
         assert isinstance(topic, str)
         if topic in self._producers:
